@@ -348,3 +348,59 @@ Proof.
 Qed.
 
 End Fail.
+
+(* ---------- the compiled detector: a coordinator reports a proxy only after three failed PING attempts ---------- *)
+Section Detector.
+Variable ttl : Z.
+Variable quorum : N.
+Variable sc : fscript.
+
+Definition attempt_fails (a : N) (n : nat) (st : fstate) : Prop :=
+  answered (fc_fault sc n) && negb (nmem a (fs_down st)) = false.
+
+Lemma probe_loop_spec : forall k c a n st e n' alive cr,
+  probe_loop sc k c a n st = (e, n', alive, cr) ->
+  (forall c' a', ~ In (EReport c' a') e) /\
+  (alive = false -> cr = false -> n' = (n + k)%nat /\ forall j, (j < k)%nat -> attempt_fails a (n + j) st).
+Proof.
+  induction k as [|k IH]; intros c a n st e n' alive cr H; cbn [probe_loop] in H.
+  - inversion H; subst. split; [intros c' a' []|]. intros _ _. split; [lia|]. intros j Hj. lia.
+  - assert (Gen : (fc_fault sc n = Ctrl.FCrash /\ (e, n', alive, cr) = ([EProbe c a false], S n, false, true)) \/
+                  (fc_fault sc n <> Ctrl.FCrash /\
+                   (if answered (fc_fault sc n) && negb (nmem a (fs_down st)) then ([EProbe c a true], S n, true, false)
+                    else let '(e0, n0, alive0, cr0) := probe_loop sc k c a (S n) st in (EProbe c a false :: e0, n0, alive0, cr0))
+                   = (e, n', alive, cr))).
+    { destruct (fc_fault sc n); try (right; split; [discriminate | exact H]). left. split; [reflexivity | symmetry; exact H]. }
+    clear H. destruct Gen as [[_ H] | [_ H]].
+    + inversion H; subst. split; [intros c' a' [X | []]; discriminate|]. intros _ X. discriminate.
+    + destruct (answered (fc_fault sc n) && negb (nmem a (fs_down st))) eqn:At.
+      * inversion H; subst. split; [intros c' a' [X | []]; discriminate|]. intros X. discriminate.
+      * destruct (probe_loop sc k c a (S n) st) as [[[e0 n0] alive0] cr0] eqn:P. inversion H; subst.
+        destruct (IH _ _ _ _ _ _ _ _ P) as [N1 N2]. split.
+        -- intros c' a' [X | X]; [discriminate | eapply N1; eauto].
+        -- intros Ha Hc. destruct (N2 Ha Hc) as [En Hall]. split; [lia|].
+           intros j Hj. destruct j as [|j]; [rewrite Nat.add_0_r; exact At|].
+           replace (n + S j)%nat with (S n + j)%nat by lia. apply Hall. lia.
+Qed.
+
+Theorem report_needs_three_failed_probes : forall c a n st e n' cr c' a',
+  detect_proxy sc c a n st = (e, n', cr) ->
+  In (EReport c' a') e ->
+  c' = c /\ a' = a /\ forall j, (j < 3)%nat -> attempt_fails a (n + j) st.
+Proof.
+  intros c a n st e n' cr c' a' H Hin. unfold detect_proxy in H.
+  destruct (probe_loop sc 3 c a n st) as [[[e0 n1] alive] cr0] eqn:P.
+  destruct (probe_loop_spec _ _ _ _ _ _ _ _ _ P) as [N1 N2].
+  destruct cr0; [inversion H; subst; exfalso; eapply N1; eauto|].
+  destruct alive; [inversion H; subst; exfalso; eapply N1; eauto|].
+  destruct (N2 eq_refl eq_refl) as [_ Hall].
+  assert (X : In (EReport c' a') e -> In (EReport c' a') (e0 ++ [EReport c a; EReport c a])).
+  { intros Hi. destruct (fc_fault sc n1); inversion H; subst; apply in_or_app;
+      try (apply in_app_or in Hi; destruct Hi as [Hi | Hi]; [left; exact Hi | right; cbn in Hi |- *; tauto]).
+    - left; exact Hi.
+    - left; exact Hi. }
+  specialize (X Hin). apply in_app_or in X. destruct X as [X | X]; [exfalso; eapply N1; eauto|].
+  destruct X as [X | [X | []]]; inversion X; subst; auto.
+Qed.
+
+End Detector.
